@@ -41,9 +41,9 @@ theorem C33_keep_supplied_field (k : PKind) (s : Site) (wrapped : Bool) (l l' : 
   · rw [hn, hx]; rfl
 
 /-- **Wrap.** Any other exception raised through `textxerror_wrap` becomes a
-`TextXError` with the full location of the processed text — also for objects
-other than the model root and for match values, where the wrapper itself cannot
-determine a location and relies on the enrichment. -/
+`TextXError` with the full location of the processed text — also for match
+values, where the wrapper itself cannot determine a location and relies on the
+enrichment. -/
 theorem C33_wrap (k : PKind) (s : Site) :
     outcome k s true .other = .textx (expected k s) := by
   obtain ⟨f, l, c, n⟩ := s
@@ -79,13 +79,17 @@ theorem C33_located (k : PKind) (s : Site) (wrapped : Bool) (r : Raised) (h : wr
 processor's unlocated `TextXError` leaves without `nchar`. -/
 theorem C33_pinned_nchar_false :
     ∃ (k : PKind) (s : Site), k ≠ .mtch ∧ outcomePinned k s false (.textx ErrLoc.empty) ≠ .textx (expected k s) :=
-  ⟨.objInner, ⟨none, 3, 4, 18⟩, by decide, by decide⟩
+  ⟨.obj, ⟨none, 3, 4, 18⟩, by decide, by decide⟩
+
+/-- On the pinned tree only the wrapper's own `get_location` call supplied `nchar`
+(wrapped foreign exception on a model object) -/
+example : outcomePinned .obj ⟨none, 3, 4, 18⟩ true .other = .textx ⟨none, some 3, some 4, some 18⟩ := by decide
 
 /-! non-vacuity -/
-example : outcome .objInner ⟨some 1, 3, 4, 18⟩ true .other = .textx ⟨some 1, some 3, some 4, some 18⟩ := by decide
+example : outcome .obj ⟨some 1, 3, 4, 18⟩ true .other = .textx ⟨some 1, some 3, some 4, some 18⟩ := by decide
 example : outcome .mtch ⟨none, 3, 16, 4⟩ false (.textx ⟨none, none, some 5, none⟩) =
     .textx ⟨none, some 3, some 5, none⟩ := by decide
-example : outcome .objRoot ⟨some 1, 1, 1, 48⟩ false (.textx ⟨some 9, some 77, none, some 2⟩) =
+example : outcome .obj ⟨some 1, 1, 1, 48⟩ false (.textx ⟨some 9, some 77, none, some 2⟩) =
     .textx ⟨some 9, some 77, some 1, some 2⟩ := by decide
 
 end Proc
